@@ -18,6 +18,44 @@ CLAIMED = {
         ref="DESIGN.md C09/C10, notes/C10.md"),
 }
 
+CLAIMED.update({
+    "C01": dict(
+        text="Proved in Coq over exact rationals: the uniform split computed by the model's average_port_pressure is a feasible fractional assignment with slack 0, and every feasible split is non-negative, supported on admissible ports, adds up to the micro-ops' cycles and satisfies Hall's condition for every port set; proved for ANY numeric instance (binary64 included), any kernel context and any number of passes: balancing changes only cells of ports the micro-op may use (support) and keeps lengths; totals ignore zero-throughput lines. The second CLI pass is refuted on the bit-exact model (witness replayed on the code = known finding). The granular Hall bound for ONE optimised pass is not proved; it is decided by the bit-exact correspondence (binary64 model = implementation on every pressure cell, synthetic port models + shipped kernels x models) plus the exact-fraction Hall/total/support oracle on the implementation's outputs.",
+        note="Trusted: Coq kernel, vm_compute, primitive floats/ints; Model/Num.v's CPython round()/sum() algorithms (validated against CPython each run); the hand model Model/Pressure.v is tied to the code only by differential correspondence; exact-arithmetic theorems transfer to doubles up to rounding. Partial: one-pass feasibility within 0.005 per (micro-op, port) pair is checked, not proved.",
+        technique="Coq proofs (feasible-flow algebra over Q, frame induction over the balancer generic in NumOps) + bit-exact differential correspondence of a binary64 Gallina model",
+        ref="DESIGN.md C01"),
+    "C02": dict(
+        text="Proved in Coq: weak duality -- for every kernel, port count and port set S, any bound B of the per-port totals of feasible splits satisfies |S|*B >= cycles confined to S minus the granted slack (unbounded); the property's bounded family (5355 kernels) is complete for its shape and, on the bit-exact binary64 model of the CLI path, every kernel's bottleneck is within 0.15 of the exact optimum, never above uniform, never more than 0.01 below the optimum (finite sweep by vm_compute, comparisons in exact rationals). The family is replayed on the real implementation and compared bit for bit with the model values the theorem is about; random kernels are checked against an independent exact optimum.",
+        note="Trusted: as C01. 'Optimised <= uniform' for arbitrary kernels is checked by the oracle, not proved. Known findings: second-pass undercut; accumulated half-step undercut after one pass (bounded by the proved duality with eps = 0.005).",
+        technique="Coq proofs (LP weak duality over Q; finite-domain vm_compute sweep on a binary64 model) + bit-exact correspondence on the whole family",
+        ref="DESIGN.md C02"),
+    "C09": dict(
+        text="Hand-written Gallina parser/renderer for the AT&T sub-language of the property. Proved for ALL ASTs (0-4 operands; any %alnum register; any integer immediate in decimal or hex; $label/label; memory in all writable displacement/base/index combinations, scales 1/2/4/8, scale 1 when omitted) and ALL layouts (blanks, operand-separator spacing, trailing # or // comment): parse_line (render lay a) = a; layout irrelevance; classification of comment/label/directive/instruction lines is exclusive; parse_file yields exactly the non-blank lines with 1-based numbers and verbatim text. Tied to ParserX86ATT by differential correspondence on thousands of rendered, malformed and whole-file inputs per run; the round trip on the implementation is the independent oracle.",
+        note="Trusted: Coq kernel; Python mirror of `render` (cross-checked byte for byte in every shard); pyparsing outside the sub-language is `Unmodelled` (only line facts checked there). Directive parameters / comment text are not part of the AST.",
+        technique="Coq proofs (lexer self-delimitation + token-level parser lemmas, induction) about a hand model + differential correspondence (vm_compute) against ParserX86ATT",
+        ref="DESIGN.md C09/C10, notes/C09.md"),
+    "C11": dict(
+        text="Gallina model of marker matching and section selection over abstract parsed lines; get_line_range is re-translated from the Python source on every run. Proved: for both ISAs and every prologue/body/epilogue with each marker style, selection returns exactly the body (for the repaired byte-matching loop; the shipped loop's two failing shapes are refuted with witnesses and were fixed in /repo); unmarked files are taken whole; --lines semantics (inclusive ranges) on the regenerated definition; noise lines inside the body do not disturb selection. Correspondence on random marked files through the real parsers; end-to-end metamorphic oracle (marked file vs --lines vs kernel-only vs noise insertions) on shipped kernels x models.",
+        note="Trusted: Coq kernel; translator (cross-checked on random --lines strings); abstraction of parsed lines (harness). Pipeline-level transparency is checked end to end, not proved.",
+        technique="Coq proofs by induction over line lists + fail-closed translation of get_line_range + differential/metamorphic checks on the implementation",
+        ref="DESIGN.md C11, notes/C11.md"),
+    "C15": dict(
+        text="Every shipped model file and both ISA databases are re-emitted as Coq data on every run through the repo's own loader; Coq proves (unbounded) that a well-formed micro-op assignment can always be costed (no KeyError/ValueError/TypeError; alternatives; balancer index lists exist and are in range) and (finite, per regenerated file, vm_compute) that every entry and every load/store table is well-formed and that the missing-TP/LT/pressure counts equal what the real --db-check printed. Cross-checks: avg_pressure model vs average_port_pressure on all distinct shipped assignments + malformed variants; one synthesised instruction per entry costed by the real assign_tp_lt + assign_optimal_throughput.",
+        note="Trusted: Coq kernel; tools/gen_c15.py (fails closed unless raw YAML view = loader view; cross-checked by db-check counts and the costing sweep).",
+        technique="Coq general well-formedness theorem + per-file finite proofs over data regenerated from the YAML + differential checks",
+        ref="DESIGN.md C15, notes/C15.md"),
+    "C17": dict(
+        text="Small-step Coq state machine of the model-cache protocol (content-keyed companion/home slots, truncate-append-close vs temp+rename write discipline, crashes, edits, racing processes). Proved for every history: the keyed-content invariant; a load returns parse(content it read); under the atomic discipline (the code after the fix) no process ever raises, no partial file is visible under a final name, and a fresh load after any history succeeds with the current content; the in-place discipline is refuted with crash and race witnesses (the defect that was fixed). Real CLI histories (cold/warm/home cache/read-only dir/edits/planted truncated files at every offset class/kill-at-byte hook/2-6 simultaneous cold starts) must be accepted by the model and print exactly the cold report.",
+        note="Trusted: Coq kernel; SHA-256 modelled as injective; pickle as an opaque encode/decode with prefixes undecodable; POSIX rename atomic; real kill timing and os.access are sampled, not modelled.",
+        technique="Coq invariant/refinement proofs over a small-step state machine + trace acceptance (vm_compute) of real file-system histories",
+        ref="DESIGN.md C17, notes/C17.md"),
+    "C20": dict(
+        text="_validate_measurement and the operand decoders are re-translated from the current Python source on every run; Coq proves over exact rationals: throughput snapping is sound/complete for the ten disjoint 5% windows around 1/n and rejects everything else; latency snaps to the nearest integer within 5% or is rejected; every documented operand code decodes to the documented pattern (finite tables); the ibench TP/LT lines merge into one entry in any order; a malformed asmbench block stops the import keeping exactly the earlier entries (the shipped truncated-file crash, TP-substring and x86 overwrite defects are refuted with witnesses and were fixed). Bit-exact function-level correspondence on window-edge doubles and file-level correspondence through the real import path.",
+        note="Trusted: Coq kernel; translator (cross-checked bit for bit on thousands of doubles); exact-vs-binary64 gap at window edges is measured and reported, theorems are over Q.",
+        technique="Coq proofs over definitions regenerated by a fail-closed translator + bit-exact differential correspondence",
+        ref="DESIGN.md C20, notes/C20.md"),
+})
+
 REASON_PENDING = "check under construction in this session (see DESIGN.md); not yet claimed"
 
 
